@@ -45,3 +45,7 @@ mod c17;
 mod c18;
 #[cfg(all(kani, feature = "c19"))]
 mod c19;
+
+#[cfg(all(test, feature = "c17"))]
+#[global_allocator]
+static C17_ALLOC: env::native_alloc::Counting = env::native_alloc::Counting;
